@@ -26,8 +26,5 @@ CONSTANTS
   OwnIds = {}
   RingSize = 1
 VIEW View
-INVARIANT NodeInv
-PROPERTY PropDeliveryExact
-PROPERTY PropAtMostOneCopy
-PROPERTY PropRelayedNeverForwarded
+INVARIANT EvictedStayOut
 CHECK_DEADLOCK FALSE
